@@ -17,7 +17,7 @@ REGISTRY = []  # list of ObligationSet
 
 
 class ObligationSet:
-    def __init__(self, name, fn, props, functions, kind="contract", assumptions=(), bounded=None, trusted=()):
+    def __init__(self, name, fn, props, functions, kind="contract", assumptions=(), bounded=None, trusted=(), tier="quick", timeout_ms=None):
         self.name = name
         self.fn = fn
         self.props = list(props)
@@ -26,6 +26,8 @@ class ObligationSet:
         self.assumptions = list(assumptions)
         self.bounded = bounded  # None, or a description of the bound (then never counted as proved)
         self.trusted = list(trusted)
+        self.tier = tier  # quick osets run in both tiers; thorough ones only in the thorough tier
+        self.timeout_ms = timeout_ms
 
     def __repr__(self):
         return f"<oset {self.name}>"
@@ -38,188 +40,8 @@ def oset(name, props, functions=(), **kw):
     return deco
 
 
-class Outcome:
-    def __init__(self, value=None, exc=None):
-        self.value = value
-        self.exc = exc  # Instance of an exception class, or None
-
-    @property
-    def ok(self):
-        return self.exc is None
-
-    def raised(self, it, clsname_or_cls):
-        if self.exc is None:
-            return False
-        c = it.builtins[clsname_or_cls] if isinstance(clsname_or_cls, str) else clsname_or_cls
-        return self.exc.cls.is_subclass(c)
-
-    def __repr__(self):
-        return f"Outcome(value={self.value!r})" if self.exc is None else f"Outcome(raised {self.exc.cls.name})"
-
-
-class Harness:
-    """The API contract files use to state one obligation set."""
-
-    def __init__(self, interp: Interp, oset_name: str):
-        self.it = interp
-        self.path = interp.path
-        self.loader = interp.loader
-        self.oset_name = oset_name
-
-    # -- symbolic inputs ---------------------------------------------------------------
-    def _reg(self, name, v):
-        self.path.inputs[name] = v
-        return v
-
-    def int(self, name, lo=None, hi=None):
-        v = SInt(z3.Int(sym.fresh_name(name)))
-        if lo is not None:
-            self.path.assume(v >= lo)
-        if hi is not None:
-            self.path.assume(v <= hi)
-        return self._reg(name, v)
-
-    def byte(self, name):
-        return self.int(name, 0, 255)
-
-    def bool(self, name):
-        return self._reg(name, SBool(z3.Bool(sym.fresh_name(name))))
-
-    def real(self, name, lo=None, hi=None):
-        v = SReal(z3.Real(sym.fresh_name(name)))
-        if lo is not None:
-            self.path.assume(v >= lo)
-        if hi is not None:
-            self.path.assume(v <= hi)
-        return self._reg(name, v)
-
-    def bytes(self, name, n, mutable=False):
-        items = []
-        for i in range(n):
-            b = SInt(z3.Int(sym.fresh_name(f"{name}_{i}")))
-            self.path.assume(And(b >= 0, b <= 255))
-            items.append(b)
-        return self._reg(name, BytesVal(items, mutable))
-
-    def abytes(self, name, ln=None, min_len=0, max_len=None):
-        arr = z3.Array(sym.fresh_name(name), z3.IntSort(), z3.IntSort())
-        if ln is None:
-            ln = SInt(z3.Int(sym.fresh_name(name + "_len")))
-            self.path.assume(ln >= min_len)
-            if max_len is not None:
-                self.path.assume(ln <= max_len)
-            self.path.inputs[name + "_len"] = ln
-        return self._reg(name, ABytes(arr, 0, ln, name))
-
-    def enum(self, name, cls, only=None, exclude=()):
-        members = [m for m in cls.members.values() if (only is None or m.name in only) and m.name not in exclude]
-        uniq = []
-        for m in members:
-            if m not in uniq:
-                uniq.append(m)
-        v = SInt(z3.Int(sym.fresh_name(name)))
-        self.path.assume(Or(*[v == m.value for m in uniq]))
-        return self._reg(name, SEnum(cls, v))
-
-    def choice(self, name, options):
-        """Complete case split over a finite list of alternatives (each explored as its own path)."""
-        k = self.path.choose(len(options), name)
-        v = options[k]
-        self.path.inputs["case:" + name] = k if not isinstance(v, (str, int)) else v
-        return v
-
-    def string(self, name, nbytes, no_nul=True, exclude_bytes=()):
-        """A symbolic str whose UTF-8 encoding has exactly nbytes bytes (valid UTF-8 assumed)."""
-        from .pybuiltins import utf8_valid
-        b = BytesVal([self.int(f"{name}_{i}", 0, 255) for i in range(nbytes)])
-        self.path.assume(utf8_valid(b), "input str: its UTF-8 encoding is valid (str <-> UTF-8 bijection)")
-        for x in b.items:
-            if no_nul:
-                self.path.assume(x != 0)
-            for e in exclude_bytes:
-                self.path.assume(x != e)
-        return self._reg(name, SStr(b))
-
-    # -- access to the real code -----------------------------------------------------------
-    def module(self, name):
-        return self.loader.load(name)
-
-    def get(self, dotted):
-        """'pkg.mod:Name.attr' -> interpreted object."""
-        modname, _, qual = dotted.partition(":")
-        obj = self.loader.load(modname)
-        for part in qual.split("."):
-            if part:
-                obj = self.it.getattr(obj, part)
-        return obj
-
-    def new(self, cls, *args, **kwargs):
-        if isinstance(cls, str):
-            cls = self.get(cls)
-        return self.it.instantiate(cls, list(args), kwargs)
-
-    def raw(self, cls, **attrs):
-        """Instance with the given attributes, bypassing __init__ (arbitrary object state)."""
-        if isinstance(cls, str):
-            cls = self.get(cls)
-        return Instance(cls, dict(attrs))
-
-    def call(self, fn, *args, **kwargs) -> Outcome:
-        try:
-            v = self.it.call(fn, list(args), kwargs)
-            if isinstance(v, Coroutine):
-                v = self.it.await_value(v)
-            return Outcome(value=v)
-        except PyExc as e:
-            return Outcome(exc=e.value)
-
-    def method(self, obj, name, *args, **kwargs) -> Outcome:
-        try:
-            fn = self.it.getattr(obj, name)
-        except PyExc as e:
-            return Outcome(exc=e.value)
-        return self.call(fn, *args, **kwargs)
-
-    def attr(self, obj, name):
-        return self.it.getattr(obj, name)
-
-    def prop(self, obj, name) -> Outcome:
-        try:
-            return Outcome(value=self.it.getattr(obj, name))
-        except PyExc as e:
-            return Outcome(exc=e.value)
-
-    # -- logic -------------------------------------------------------------------------------
-    def assume(self, c, why=None):
-        self.path.assume(c, why)
-
-    def oblige(self, name, cond, detail=None, kind="post"):
-        return self.path.oblige(name, cond, kind=kind, detail=detail)
-
-    def fail(self, name, detail=None):
-        return self.path.oblige(name, False, detail=detail)
-
-    def eq(self, a, b):
-        return self.it.py_eq(a, b)
-
-    def isinstance(self, v, cls):
-        if isinstance(cls, str):
-            cls = self.get(cls)
-        return self.it.isinstance_(v, cls)
-
-    def branch(self, c):
-        return self.path.branch(c)
-
-    def cover(self, name):
-        """Reachability witness: records that this point was reached on a feasible path."""
-        ok = self.path.feasible()
-        self.path.notes.append(("cover", name, ok))
-
-    def member(self, cls, name):
-        return cls.members[name]
-
-    def enum_name(self, v):
-        return v.name if isinstance(v, EnumMember) else None
+from .harness import Harness, Outcome  # noqa: E402
+from .values import MISSING  # noqa: E402,F811
 
 
 # -------------------------------------------------------------------------------------
